@@ -740,6 +740,7 @@ func init() {
 		Stub:        []string{"net.Listener (SimListener)", "net.Conn (SimConn)", "Backend/AuthSession (SimBackend)", "sasl.Server and sasl.Client (scripted, recording)", "clock (synctest)", "SMTP client of the server half (raw driver)"},
 		Assumptions: []string{"a nil (as opposed to empty) response from a client mechanism's Next is an unspecified contract and is not generated", "the reply code of a failed/malformed/cancelled exchange is not judged, only that it is not positive and the connection is back in command mode"},
 		Required:    []string{"attempt_235", "attempt_badb64", "attempt_cancel", "attempt_fail", "attempt_unknown-mech", "attempt_not_permitted", "attempt_after_success", "auth_after_failed_starttls_handshake", "client_half", "client_mechanism_error", "empty_initial_response", "tls_handshake_completed", "client_answers_a_challenge_later_than_ReadTimeout", "client_answers_a_challenge_with_an_over-long_line", "client_auth_exchange_broken_off", "attempt_after_HELO", "attempt_after_success_and_a_new_greeting", "slow_client_completes_a_multi-line_exchange", "read_timeout_in_the_middle_of_a_response_line"},
+		Instr:       true,
 		QuickRuns:   40000, ThoroughRuns: 1000000,
 	})
 }
